@@ -1325,7 +1325,10 @@ static void list_push_hostlist (List l, hostlist_t hl)
     size_t n = 4096;
     char *s = Malloc (n);
 
-    while ((hostlist_ranged_string (hl, n-1, s) < 0) && ((n *= 2) < 0x7fffff)) {
+    while (hostlist_ranged_string (hl, n-1, s) < 0) {
+        if (n > ((size_t) -1) / 2)
+            errx ("%p: exclusion list too long\n");
+        n *= 2;
         Realloc ((void **) &s, n);
     }
 
